@@ -199,6 +199,8 @@ impl DBM {
             }
         }
 
+        #[cfg(feature = "verif")]
+        teos_common::verif::crash_point("batch_remove_users:commit");
         match tx.commit() {
             Ok(_) => log::debug!("Users successfully deleted"),
             Err(e) => log::error!("Couldn't delete users. Error: {e:?}"),
@@ -445,6 +447,8 @@ impl DBM {
             };
         }
 
+        #[cfg(feature = "verif")]
+        teos_common::verif::crash_point("batch_remove_appointments:commit");
         match tx.commit() {
             Ok(_) => log::debug!("Appointments successfully deleted"),
             Err(e) => log::error!("Couldn't delete appointments. Error: {e:?}"),
